@@ -58,6 +58,8 @@ type FuncContract struct {
 	Trusted  bool // contract assumed, body not verified
 	Pure     bool
 	Inline   bool // always inline at call sites (even if contracted)
+	Uf       bool // ghost function kept as a named function: its definition is unfolded at ground arguments only, never under a quantifier
+	InlineOnly bool // never verified on its own: its body is verified inlined into every verified caller (ownership data-flow obligations are still generated for it)
 	Loops    map[int]*LoopContract
 	IsInit   bool
 	Decr     *Clause
@@ -250,7 +252,7 @@ func ParseContracts(fset *token.FileSet, files []*ast.File) *Contracts {
 					cur = fc
 				case "inv":
 					cs.InvExprs = append(cs.InvExprs, &Clause{Kind: "inv", Expr: expandSugar(rest), Raw: rest, Line: line, File: fname})
-				case "property", "old", "requires", "ensures", "modifies", "trusted", "pure", "inline", "invariant", "decreases", "fresh-result", "owns-lists", "replay-via", "depends-only", "opaque-result", "opaque", "havoc":
+				case "property", "old", "requires", "ensures", "modifies", "trusted", "pure", "inline", "inline-only", "uf", "invariant", "decreases", "fresh-result", "owns-lists", "replay-via", "depends-only", "opaque-result", "opaque", "havoc":
 					if cur == nil {
 						errf("clause outside func")
 						continue
@@ -306,6 +308,11 @@ func ParseContracts(fset *token.FileSet, files []*ast.File) *Contracts {
 						cur.Pure = true
 					case "inline":
 						cur.Inline = true
+					case "uf":
+						cur.Uf = true
+					case "inline-only":
+						cur.Inline = true
+						cur.InlineOnly = true
 					case "modifies":
 						for _, m := range strings.Split(rest, ",") {
 							if m = strings.TrimSpace(m); m != "" {
